@@ -1304,10 +1304,10 @@ rc::Gen<model_cfg_t> gen_model_cfg(int model, bool continuous_only, bool converg
             rc::gen::tuple(gen::range<int>(0, 41), rc::gen::element(0.5, 0.1, 0.9, 0.25), gen::range<int>(0, 3), gen::range<int>(1, 3), gen::range<int>(1, 6),
                            gen::range<int>(0, 3), rc::gen::element(10, 16, 100, 33)),
             rc::gen::tuple(rc::gen::mapcat(gen::range<int>(1, 3), [wl](int k) { return rc::gen::container<std::vector<int>>(static_cast<size_t>(k), wl); }),
-                           gen::range<int>(0, 1), rc::gen::element(0, 0, 0, 2, 2, 1), rc::gen::element(0, 0, 1, 2, 3, 4), rc::gen::element(1.0, 0.5, 0.8), gen::range<int>(0, 1024),
+                           gen::range<int>(0, 1), rc::gen::element(0, 0, 0, 0, 2, 2, 2, 1), rc::gen::element(0, 0, 1, 2, 3, 4), rc::gen::element(1.0, 0.5, 0.8), gen::range<int>(0, 1024),
                            gen::range<int>(1, 3), rc::gen::element(1e-6, 1e-4, 1e-2)),
             rc::gen::tuple(gen::range<int>(0, 1), rc::gen::element(2, 2, 3), gen::range<int>(0, 1024), rc::gen::element(80, 50, 66), rc::gen::element(0, 0, 0, 1),
-                           gen::range<int>(10, 12), converge ? rc::gen::element(100, 200, 300) : rc::gen::element(20, 50, 100),
+                           gen::range<int>(10, 12), converge ? (model == 12 ? rc::gen::element(30, 60, 60) : rc::gen::element(100, 200, 200)) : rc::gen::element(20, 50, 100),
                            converge ? rc::gen::element(1e-7, 1e-8, 1e-9) : rc::gen::element(1e-6, 1e-4, 1e-8))),
         [model](const auto& t)
         {
@@ -1796,8 +1796,9 @@ rc::Gen<fit_case_t> gen_fit_case()
             // the serial reference (1,1) + two other configurations, at least one of them with real concurrency
             const auto cfgs  = rc::gen::map(rc::gen::pair(rc::gen::element(4, 5, 7, 8, 4, 8), gen::range<int>(1, 8)),
                                             [](const std::pair<int, int>& ab) { return std::vector<int>{0, ab.first, ab.second}; });
-            return rc::gen::map(rc::gen::tuple(gen::vec(static_cast<size_t>(n * f), 2.0), gen::vec(static_cast<size_t>(2 * K * f), 1.0),
-                                               rc::gen::container<std::vector<double>>(static_cast<size_t>(n * K), gen::normal()), gen::real(0.05, 1.0),
+            // the data values are not shrunk: a smaller value is not a simpler fit, and every shrink candidate costs several fits
+            return rc::gen::map(rc::gen::tuple(rc::gen::noShrink(gen::vec(static_cast<size_t>(n * f), 2.0)), rc::gen::noShrink(gen::vec(static_cast<size_t>(2 * K * f), 1.0)),
+                                               rc::gen::noShrink(rc::gen::container<std::vector<double>>(static_cast<size_t>(n * K), gen::normal())), gen::real(0.05, 1.0),
                                                gen_model_cfg(model, true, true), cfgs, gen_delays(), gen::range<int>(1, 1 << 20)),
                                 [=](const auto& t)
                                 {
